@@ -1638,7 +1638,7 @@ class FortranReaderBase:
             if i != -1:
                 # handle the beginning of continued line
                 k = line[:i].find("&")
-                if k != 1 and line[:k].lstrip():
+                if k != -1 and line[:k].lstrip():
                     k = -1
             endlineno = self.linecount
             lines_append(line[k + 1 : i])
